@@ -183,6 +183,6 @@ def plan(ctx):
                             replay=RT('parse_total')))
     for mn, d in (('mask', []), ('nomask', ['MASK_NULL'])):
         groups.append(Group(name='parse_data_string.step[%s]' % mn, harness='harness/C09/step.c', entry='h_step', function='parse_data_string (loop body)',
-                            enforce='pds_step', defines=d, timeout=300, object_bits=12, engines=['minisat', 'cadical'], min_post=10,
+                            enforce='pds_step', replace=['C09_append_bytes', 'C09_append_fill'], defines=d, timeout=300, object_bits=12, engines=['minisat', 'cadical'], min_post=10,
                             replay=RT('step')))
     return groups
